@@ -225,6 +225,28 @@ theorem normalize_lower (E : Env) (u : Uri) :
   constructor <;> intro b hb <;> simp only [normalize, lowerBytes, List.mem_map] at hb <;>
     obtain ⟨a, _, rfl⟩ := hb <;> exact h a
 
+/-- **the default port is explicit after normalisation**, for every URI value with a scheme, whatever order its attributes
+    were assigned in: the `port` property reads the stored port if there is one and otherwise the default port of the class
+    registered for the lower-cased scheme (in particular: never "no port" when that class has a default). -/
+theorem normalize_port_explicit (E : Env) (u : Uri) (h : u.scheme ≠ []) :
+    (normalize E u).portProp =
+      (match u.port with
+       | some p => some p
+       | none => (lookupScheme E.schemes (lowerBytes u.scheme)).map (·.2)) := by
+  have : (lowerBytes u.scheme).isEmpty = false := by
+    rw [lowerBytes_isEmpty]; cases hs : u.scheme <;> simp_all
+  simp only [normalize, Uri.portProp, Uri.PORT, this]
+  cases u.port <;> simp
+
+/-- non-vacuity and the order-independence it is about: port assigned before the scheme, scheme in upper case -/
+theorem normalize_port_witness :
+    let S : Schemes := [("http".toUTF8.toList, 80)]
+    let E : Env := { schemes := S, hostSafe := fun _ => false, querySafe := fun _ => false }
+    let u := assign S (assign S (assign S {} "host".toUTF8.toList "h".toUTF8.toList) "port".toUTF8.toList [])
+      "scheme".toUTF8.toList "HTTP".toUTF8.toList
+    u.portProp = none ∧ (normalize E u).portProp = some 80 ∧ (normalize E u).scheme = "http".toUTF8.toList := by
+  decide +kernel
+
 /-! ### equality -/
 
 /-- what `==` compares: the eight-tuple of the normalised copy -/
